@@ -284,6 +284,9 @@ func GenPSet(model string, r *core.Rand, o genOpts) PSet {
 		}
 		p["fineSedSettVelocityFlood"] = one(r.LogRange(1e-6, 1e-3))
 		p["floodPlainArea"] = one(r.Range(0, 1e6))
+		if r.Bool(0.25) {
+			p["floodPlainArea"] = one(0) // a reach without a floodplain
+		}
 		p["linkWidth"] = one(r.Range(1, 50))
 		p["linkLength"] = one(r.Range(100, 1e4))
 		p["linkSlope"] = one(r.LogRange(1e-4, 0.05))
@@ -692,6 +695,17 @@ func GenInputs(model string, r *core.Rand, T int, ps PSet) [][]float64 {
 			for t := 0; t < T; t++ {
 				if r.Bool(0.25) {
 					in[b][t] = in[a][t]
+				}
+			}
+		}
+	}
+	// an input sitting exactly on a parameter threshold it is compared with (outflow == bank-full flow)
+	if model == "InstreamFineSediment" && r.Bool(0.5) {
+		if pi := paramIndex(desc, "bankFullFlow"); pi >= 0 && ps[pi][0] > 0 {
+			o := byName("outflow")
+			for t := 0; t < T; t++ {
+				if r.Bool(0.15) {
+					in[o][t] = ps[pi][0]
 				}
 			}
 		}
